@@ -11,7 +11,8 @@ ID = 'C02'
 LEVEL = 'exploration'
 RULE = ('generated references + GVF record sets (families small, multi-transcript, AS, fusion '
     'incl. intragenic, circRNA, fusion + circRNA on one transcript; planted geometries as in '
-    'C01) x cleavage options x binding graph-complexity limits (max-variants-per-node '
+    'C01, plus a trypsin exception motif in untouched reference sequence between two SNV '
+    'bubbles, where a cut at the planted site has no tolerance) x cleavage options x binding graph-complexity limits (max-variants-per-node '
     '1..7, additional-variants-per-misc 0..2, multi-valued lists) x node-collapsing settings '
     '(incl. aggressive ones) x injected TimeoutErrors that drive the retry ladder; oracle: '
     'every FASTA sequence lies in the liberal may-set U of the definitional model for a '
